@@ -282,6 +282,9 @@ class Origin:
         delay = float(beh.get("delay", 0.0)) + float(self.s.get("base_latency", 0.01))
         await asyncio.sleep(delay)
         err = beh.get("raise")
+        # "raise_n": a transient fault — only the first n requests of this kind fail, later attempts reach the origin
+        if err and beh.get("raise_n") is not None and kind != "chunk" and self.kind_counts.get(kind, 0) > int(beh["raise_n"]):
+            err = None
         if err and ch["hop"] == 0:
             if err == "connect":
                 raise aiohttp.InvalidURL(url)  # message embeds the full URL, like aiohttp's own
